@@ -21,7 +21,7 @@ rows = ["| id | site | when (stimulus predicate) | what fails, and why it is not
 for f in [f for f in k if f["status"] == "open"]:
     rows.append(f"| {f['id']} | `{esc(f.get('site') or f.get('site_prefix'))}` | {esc(f.get('when'))} | {esc(f.get('what'))[:420]} |")
 put("OPEN-TABLE", "\n".join(rows))
-rows = ["| seeded change | what it changes / needs | caught by | failing clauses reported |", "|---|---|---|---|"]
+rows = ["| seeded change | round | what it changes / needs | caught by | failing clauses reported | first run |", "|---|---|---|---|---|---|"]
 for d in sorted((V / "seeded").iterdir()):
     if not (d / "meta.json").exists():
         continue
@@ -34,7 +34,9 @@ for d in sorted((V / "seeded").iterdir()):
         cl = "; ".join(det.get("clauses", [])[:3])
     else:
         by, cl = esc(det.get("status", "not run")), ""
-    rows.append(f"| {d.name} | {esc(first)[:230]} | {by} | {esc(cl)[:260]} |")
+    fr = m.get("first_run")
+    frs = ("missed; " + fr["strengthening"]) if fr and not fr.get("detected") else "caught"
+    rows.append(f"| {d.name} | {m.get('round', 1)} | {esc(first)[:230]} | {by} | {esc(cl)[:260]} | {esc(frs)} |")
 put("SEEDED-TABLE", "\n".join(rows))
 (V / "DESIGN.md").write_text(s)
 print("ok")
